@@ -8,10 +8,10 @@ import (
 )
 
 const requireLibs = "CTree.CTreeModel Path.PathModel Cache.CacheModel Cache.MultiCache Cache.C14Check"
-const caseTypeName = "mcase"
+const caseTypeName = "c14case"
 const checkFnName = "check_all"
 
-func wrapCase(term string) string { return term }
+func wrapCase(term string) string { return "CSeq " + term }
 
 // latency histories belong to C15
 func addLatCase(e *emitter, c *Case) {}
@@ -323,6 +323,9 @@ func ruleText() string {
 		"Reset/Remove/Add/Sync/Connect/ConnectError/UpdateMetadata/UpdateSize, monotone clock, future threshold in {0,2}); " +
 		"the same with 1..4 STREAM subscribers (single target or *) attached at random points, half of them with the initial walk and a " +
 		"Cache.Remove forced between registration and walk (hook process:before-walk). " +
+		"atomicity of [mutate; announce]: a call X (Remove / Reset / update / delete / Sync / Connect) parked inside its first cache.Now() or inside its " +
+		"first feed callback while calls Y (Add+update, update, delete, Reset, Remove, update of another target) run on a second goroutine " +
+		"against the same name, every X x park point x Y; " +
 		"distinct = distinct (config, targets, calls); non-trivial = some Reset/Remove hits a target holding a non-metadata leaf " +
 		"while another target holds one too, or a subscriber received a response"
 }
@@ -349,4 +352,5 @@ func generate(e *emitter, o vh.Opts) {
 	for i := 0; i < nstream; i++ {
 		e.add(randomCase(r.Fork(), true, 10))
 	}
+	generateConc(e, o, r.Fork())
 }
